@@ -367,7 +367,8 @@ def gen_tables(rng, cls, big):
     return tables, names, number_columns, comments
 
 
-NUM_FORMS = ["{:d}", "{:+d}", "{:.0f}.", "{:.3f}", "{:.6f}", "{:e}", "{:E}", "{:.2e}", "{:010.4f}", "{:g}", "{!r}"]
+NUM_FORMS = ["{:d}", "{:+d}", "{:.0f}.", "{:.3f}", "{:.6f}", "{:e}", "{:E}", "{:.2e}", "{:010.4f}", "{:g}", "{!r}", "LEADDOT", "LEADDOT_E",
+             "{:+.3f}", "{:+e}", "{:.0f}.e0", "{:.1f}E+00"]
 
 
 def gen_text(rng, cls):
@@ -409,7 +410,25 @@ def gen_text(rng, cls):
         labels = [str(x) for x in rng.choice(REL_NAMES, ncols, replace=False)]
         style = int(rng.integers(0, 4)) if cls == "text_label_styles" or deco else 0
         nums = []
-        for k, lab in enumerate(labels, 1):
+        # the '#n' after a label is a comment: whatever it says, labels belong to the data columns in FILE order.  Hand-edited
+        # files keep old numbers after lines were moved: permuted, shifted, gapped, repeated or non-numeric comments
+        ks = list(range(1, ncols + 1))
+        if deco and ncols > 1:
+            mode = int(rng.integers(0, 8)) if cls == "text_label_styles" else int(rng.integers(0, 16))
+            if mode == 0:
+                ks = [int(x) for x in rng.permutation(ks)]
+            elif mode == 1:
+                ks = ks[::-1]
+            elif mode == 2:
+                ks = [k + int(rng.integers(1, 9)) for k in ks]
+            elif mode == 3:
+                ks = sorted(int(x) for x in rng.choice(np.arange(1, 3 * ncols), ncols, replace=False))
+            elif mode == 4:
+                ks = [int(rng.integers(1, ncols + 1)) for _ in ks]
+            elif mode == 5:
+                a, b2 = (int(x) for x in rng.choice(ncols, 2, replace=False))
+                ks[a], ks[b2] = ks[b2], ks[a]
+        for k, lab in zip(ks, labels):
             s = style if cls != "text_label_styles" else int(rng.integers(0, 5))
             if s == 0:
                 lines.append("_%s #%d" % (lab, k)); nums.append(k)
@@ -439,6 +458,14 @@ def gen_text(rng, cls):
                     toks = []
                     for v in vals:
                         f = str(rng.choice(NUM_FORMS))
+                        if f in ("LEADDOT", "LEADDOT_E"):
+                            # decimals written without the leading zero (.5, -.25, +.1e3): numbers to every STAR reader
+                            m = abs(float(v))
+                            m = m - np.floor(m) if m >= 1 else m
+                            t = ("%.4f" % m)[1:] if ("%.4f" % m).startswith("0.") else ".5000"
+                            t = (["", "-", "+"][int(rng.integers(0, 3))]) + t
+                            toks.append(t + ("e%d" % rng.integers(-3, 4) if f == "LEADDOT_E" else ""))
+                            continue
                         toks.append(f.format(int(v) if "d" in f else float(v)))
                     if toks and all(star.INT_RE.match(t) for t in toks):
                         toks[0] = "%.3f" % vals[0]
